@@ -7,16 +7,13 @@ mod checks;
 mod hist;
 mod lat;
 mod model;
+mod obs;
 mod table;
 mod uf;
 mod universe;
 
 use checks::Ctx;
 use vcommon::{Args, Tier, Value};
-
-fn norm_check(s: &str) -> &str {
-    s.trim_end_matches("_self").trim_end_matches("_record")
-}
 
 fn replay(cx: &mut Ctx, prop: &str, case: &Value) {
     let check = case["check"].as_str().unwrap_or("");
@@ -30,11 +27,8 @@ fn replay(cx: &mut Ctx, prop: &str, case: &Value) {
         "c04rho" => uf::replay_rho(cx, case),
         _ => {
             let es = table::entries();
-            let e = es
-                .iter()
-                .find(|e| norm_check(e.check) == check && (e.family == fam || format!("{0}|{0}", e.family) == fam))
-                .unwrap_or_else(|| panic!("no table entry for check {check} family {fam}"));
-            (e.run)(cx, Some(case));
+            let e = es.iter().find(|e| e.check == check && e.family() == fam).unwrap_or_else(|| panic!("no table entry for check {check} family {fam}"));
+            e.run(cx, Some(case));
         }
     }
 }
@@ -92,7 +86,7 @@ fn main() {
             if !args.in_shard(idx) {
                 continue;
             }
-            (e.run)(&mut cx, None);
+            e.run(&mut cx, None);
         }
         if matches!(prop, "C01" | "C02" | "C03") {
             checks::point_check(&mut cx, prop, None);
